@@ -244,7 +244,8 @@ def check_extraction(run):
             Lbox = 1.2
             h = 2 * Lbox / (N - 1)
             fd = fields.make_fd(N=N, order=4, h=h, origin=(-Lbox, -Lbox, -Lbox))
-            rel = core.AurelCore(fd, verbose=False, lmax=3, extract_radii=[R], center=cen, interp_method="linear")
+            radii = [0.5, R, 0.65]          # several extraction spheres in one call: each one is sampled at its own radius
+            rel = core.AurelCore(fd, verbose=False, lmax=3, extract_radii=radii, center=cen, interp_method="linear")
             X, Y, Z = fd.x - cen[0], fd.y - cen[1], fd.z - cen[2]
             r = np.sqrt(X ** 2 + Y ** 2 + Z ** 2)
             rs = np.where(r == 0, 1.0, r)
@@ -253,15 +254,16 @@ def check_extraction(run):
             psi4 = (1.0 + 0.5 * r ** 2) * mt.sYlm(-2, l0, m0, th, ph)
             zero = np.zeros(fd.x.shape, dtype=complex)
             rel.data["Weyl_Psi"] = [zero, zero, zero, zero, psi4]
-            out = rel["Psi4_lm"][R]
+            res = rel["Psi4_lm"]
             want = 1.0 + 0.5 * R ** 2
-            e = max(abs(out[(l, m)] - (want if (l, m) == (l0, m0) else 0.0)) for l in range(2, 4) for m in range(-l, l + 1))
+            e = max(abs(res[rad][(l, m)] - ((1.0 + 0.5 * rad ** 2) if (l, m) == (l0, m0) else 0.0))
+                    for rad in radii for l in range(2, 4) for m in range(-l, l + 1))
             errs.append(e)
         run.count(("Psi4_lm", l0, m0, cen))
         run.info.setdefault("extraction_errors_at_16_32_64", {})[f"{l0},{m0} about {cen}"] = [float(e) for e in errs]
         if not (errs[2] < 2e-2 * abs(want) and errs[2] < errs[1] / 2 and errs[1] < errs[0] / 2):
             run.violation({"clause": "ExtractionReturnsAmplitude", "l": l0, "m": m0, "centred": cen == (0.0, 0.0, 0.0)},
-                          f"Psi4_lm of g(r) x (-2)Y_{l0}{m0} about the centre {cen} at R = {R}: largest coefficient error {errs} on 16^3, 32^3, 64^3 grids "
+                          f"Psi4_lm of g(r) x (-2)Y_{l0}{m0} about the centre {cen} on the spheres R = 0.5, {R}, 0.65: largest coefficient error {errs} on 16^3, 32^3, 64^3 grids "
                           f"(the amplitude is {want}); expected to converge with the resolution", {"l": l0, "m": m0})
         else:
             run.traces += 1
